@@ -159,7 +159,7 @@ def doc_to_help(doc):
 # ------------------------------------------------------------------------------------------
 # families
 # ------------------------------------------------------------------------------------------
-IDENTS = ["verbose", "dry_run", "v", "r#type", "file_name2"]
+IDENTS = ["verbose", "dry_run", "v", "r#type", "file_name2", "ä"]
 IDENTS = IDENTS[seed % len(IDENTS):] + IDENTS[:seed % len(IDENTS)]
 
 def single_field_specs():
@@ -235,7 +235,7 @@ items = []
 def top_doc_lines(doc):
     return "".join("/// %s\n" % l if l else "///\n" for l in doc.split("\n"))
 
-MODES = ["parser", "options", "command", "command_named", "options_version", "options_usage", "options_fallback_usage", "boxed", "options_doc3", "parser_doc"]
+MODES = ["parser", "options", "command", "command_named", "options_version", "options_usage", "options_fallback_usage", "boxed", "options_doc3", "parser_doc", "options_descr_doc", "command_doc3"]
 
 def emit_struct(i, fields, mode, tuple_struct=False):
     it = Item()
@@ -276,6 +276,18 @@ def emit_struct(i, fields, mode, tuple_struct=False):
         wrap = "options"
         top_doc = "the description\n\n\nthe header\n\n\nthe footer"
         manual_tail = '.to_options().descr("the description").header("the header").footer("the footer")'
+    elif mode == "options_descr_doc":
+        # an explicit descr(..) overrides exactly the description: the first block of the doc
+        # comment is dropped, the other blocks are still header and footer
+        top_attr = ["options", 'descr("explicit description")']
+        wrap = "options"
+        top_doc = "ignored first block\n\n\nthe header\n\n\nthe footer"
+        manual_tail = '.to_options().descr("explicit description").header("the header").footer("the footer")'
+    elif mode == "command_doc3":
+        top_attr = ["command"]
+        wrap = "command"
+        top_doc = "command description\n\n\ncommand header\n\n\ncommand footer"
+        manual_tail = '.to_options().descr("command description").header("command header").footer("command footer").command("t%d")' % i
     elif mode == "parser_doc":
         top_doc = "group title"
         manual_tail = '.group_help("group title")'
@@ -327,7 +339,7 @@ def alphabet_for(fields, mode, i):
             if "argument" in m:
                 a.append("--%s=7" % l)
                 a.append("--%s=x" % l)
-    if mode == "command":
+    if mode in ("command", "command_doc3"):
         a.append("t%d" % i)
     if mode == "command_named":
         a += ["renamed", "r"]
